@@ -17,7 +17,7 @@ var allSpecs = []HarnessSpec{
 	{Prop: "C01", Func: "ZZ_C01_Deps", Tag: "shape=0,fine-grained", Tiers: "thorough", POR: true, Replay: "native", Params: map[string]int{"shape": 0, "maxconc": 1, "failing": 1}},
 	{Prop: "C02", Func: "ZZ_C02_Order", POR: true, Replay: "native", Twin: true, Params: map[string]int{"maxconc": 0, "__coarse": 1}, TParams: map[string]int{"maxconc": 1}},
 	{Prop: "C02", Func: "ZZ_C02_SharedCall", POR: true, Replay: "native", Params: map[string]int{"__coarse": 1}},
-	{Prop: "C02", Func: "ZZ_C02_Compile", Replay: "native", Twin: true},
+	{Prop: "C02", Func: "ZZ_C02_Compile", Replay: "native", Twin: true, Params: map[string]int{"__tmplsrc": 1}},
 	{Prop: "C03", Func: "ZZ_C03_FailStop", Tag: "shape=0", POR: true, Replay: "native", Twin: true, Params: map[string]int{"shape": 0, "__coarse": 1}},
 	{Prop: "C03", Func: "ZZ_C03_FailStop", Tag: "shape=1", POR: true, Replay: "native", Params: map[string]int{"shape": 1, "__coarse": 1}},
 	{Prop: "C03", Func: "ZZ_C03_FailStop", Tag: "shape=2", POR: true, Replay: "native", Params: map[string]int{"shape": 2, "__coarse": 1}},
@@ -34,10 +34,13 @@ var allSpecs = []HarnessSpec{
 	{Prop: "C05", Func: "ZZ_H_History", Tag: "prop=5,two-generates", POR: true, Replay: "native", Params: map[string]int{"prop": 5, "steps": 2, "slim": 1, "gen_history": 1, "__coarse": 1}},
 	{Prop: "C04", Func: "ZZ_H_History", Tag: "prop=4,query-between-runs", POR: true, Replay: "native", Params: map[string]int{"prop": 4, "steps": 3, "slim": 1, "query_history": 1, "__coarse": 1}},
 	{Prop: "C05", Func: "ZZ_H_History", Tag: "prop=5,query-between-runs", POR: true, Replay: "native", Params: map[string]int{"prop": 5, "steps": 3, "slim": 1, "query_history": 1, "__coarse": 1}},
+	{Prop: "C04", Func: "ZZ_H_History", Tag: "prop=4,generated-by-first-command", POR: true, Replay: "native", Params: map[string]int{"prop": 4, "steps": 2, "slim": 1, "early_gen_history": 1, "__coarse": 1}},
+	{Prop: "C05", Func: "ZZ_H_History", Tag: "prop=5,link-to-nowhere-among-sources", POR: true, Replay: "native", Params: map[string]int{"prop": 5, "steps": 2, "slim": 1, "dangling_history": 1, "__coarse": 1}},
 	{Prop: "C05", Func: "ZZ_C05_ChecksumFraming", Replay: "native", Twin: true},
 	{Prop: "C05", Func: "ZZ_H_History", Tag: "prop=5,source-removed", POR: true, Replay: "native", Params: map[string]int{"prop": 5, "steps": 2, "slim": 1, "removal_history": 1, "__coarse": 1}},
 	{Prop: "C05", Func: "ZZ_H_History", Tag: "prop=5,with-status", POR: true, Replay: "native", Params: map[string]int{"prop": 5, "steps": 2, "slim": 1, "status_history": 1, "__coarse": 1}},
 	{Prop: "C12", Pkg: "cmd/task", Func: "ZZ_C12_QueryFlagsMeanDry", Replay: "native", ReplayPkg: "args", ReplayFunc: "ZZ_C12_QueryFlags_native", Twin: true},
+	{Prop: "C05", Pkg: "cmd/task", Func: "ZZ_C05_StateDirFollowsTaskfile", Replay: "native", ReplayPkg: "args", ReplayFunc: "ZZ_C05_StateDir_native", Twin: true},
 	{Prop: "C05", Pkg: "cmd/task", Func: "ZZ_C12_QueryFlagsMeanDry", Replay: "native", ReplayPkg: "args", ReplayFunc: "ZZ_C12_QueryFlags_native"},
 	{Prop: "C12", Func: "ZZ_H_History", Tag: "prop=12", POR: true, Replay: "native", Twin: true, Params: map[string]int{"prop": 12, "steps": 2, "__coarse": 1}, TParams: map[string]int{"steps": 3, "slim": 1}},
 	{Prop: "C03", Func: "ZZ_C03_FailStop", Tag: "shape=7", POR: true, Replay: "native", Params: map[string]int{"shape": 7, "__coarse": 1}},
@@ -47,10 +50,10 @@ var allSpecs = []HarnessSpec{
 	{Prop: "C06", Func: "ZZ_C03_FailStop", Tag: "shape=4", POR: true, Replay: "native", Params: map[string]int{"shape": 4, "failing": 1, "__coarse": 1}},
 	{Prop: "C06", Func: "ZZ_C01_Deps", Tag: "shape=6", POR: true, Replay: "native", Params: map[string]int{"shape": 6, "maxconc": 0, "failing": 2, "__coarse": 1}},
 	{Prop: "C06", Func: "ZZ_C06_DistinctOnce", POR: true, Replay: "native", Twin: true, Params: map[string]int{"__coarse": 1}},
-	{Prop: "C02", Func: "ZZ_C11_Deferred", Replay: "native"},
-	{Prop: "C14", Func: "ZZ_C11_Deferred", Replay: "native"},
-	{Prop: "C14", Func: "ZZ_C14_DeferredCall", Replay: "native", Twin: true},
-	{Prop: "C02", Func: "ZZ_C14_DeferredCall", Replay: "native"},
+	{Prop: "C02", Func: "ZZ_C11_Deferred", Replay: "native", Params: map[string]int{"__tmplsrc": 1}},
+	{Prop: "C14", Func: "ZZ_C11_Deferred", Replay: "native", Params: map[string]int{"__tmplsrc": 1}},
+	{Prop: "C14", Func: "ZZ_C14_DeferredCall", Replay: "native", Twin: true, Params: map[string]int{"__tmplsrc": 1}},
+	{Prop: "C02", Func: "ZZ_C14_DeferredCall", Replay: "native", Params: map[string]int{"__tmplsrc": 1}},
 	{Prop: "C06", Func: "ZZ_C06_RunModes", POR: true, Replay: "native", Twin: true, Params: map[string]int{"failing": 1, "__coarse": 1}, TParams: map[string]int{"failing": 2}},
 	{Prop: "C07", Func: "ZZ_C07_Concurrency", Tag: "shape=1", POR: true, Replay: "native", Twin: true, MustReach: []string{"independent-deps-overlap"}, Params: map[string]int{"shape": 1, "maxconc": 2, "__coarse": 1}},
 	{Prop: "C07", Func: "ZZ_C07_Concurrency", Tag: "shape=2", POR: true, Replay: "native", Params: map[string]int{"shape": 2, "maxconc": 2, "__coarse": 1}},
@@ -58,21 +61,22 @@ var allSpecs = []HarnessSpec{
 	{Prop: "C07", Func: "ZZ_C07_CallLimit", Replay: "native", Twin: true},
 	{Prop: "C07", Func: "ZZ_C07_FailingDynamicVar", POR: true, Replay: "native", Twin: true, Params: map[string]int{"__coarse": 1}},
 	{Prop: "C07", Func: "ZZ_C07_Cycle", POR: true, Replay: "native", Twin: true, Params: map[string]int{"__coarse": 1}},
-	{Prop: "C11", Func: "ZZ_C11_DynamicVar", Replay: "native", Twin: true},
-	{Prop: "C11", Func: "ZZ_C11_Deferred", Replay: "native", Twin: true},
-	{Prop: "C11", Func: "ZZ_C11_Isolation", Replay: "native", Twin: true},
+	{Prop: "C11", Func: "ZZ_C11_DynamicVar", Replay: "native", Twin: true, Params: map[string]int{"__tmplsrc": 1}},
+	{Prop: "C11", Func: "ZZ_C11_Deferred", Replay: "native", Twin: true, Params: map[string]int{"__tmplsrc": 1}},
+	{Prop: "C11", Func: "ZZ_C11_Isolation", Replay: "native", Twin: true, Params: map[string]int{"__tmplsrc": 1}},
 	{Prop: "C13", Func: "ZZ_C13_Guards", POR: true, Replay: "native", Twin: true, Params: map[string]int{"__coarse": 1}},
 	{Prop: "C13", Func: "ZZ_C13_SharedGuard", POR: true, Replay: "native", Twin: true, Params: map[string]int{"__coarse": 1}},
 	{Prop: "C14", Func: "ZZ_C14_Defer", POR: true, Replay: "native", Twin: true, Params: map[string]int{"__coarse": 1}},
 	{Prop: "C08", Pkg: "taskfile/ast", Func: "ZZ_C08_DeepCopy", Replay: "native"},
 	{Prop: "C08", Pkg: "taskfile/ast", Func: "ZZ_C08_Merge", Replay: "native"},
+	{Prop: "C06", Pkg: "taskfile/ast", Func: "ZZ_C06_MergeKeepsFileSettings", Replay: "native", Twin: true},
 	{Prop: "C08", Pkg: "taskfile/ast", Func: "ZZ_C08_IncludedTwice", Replay: "native", Twin: true},
 	{Prop: "C09", Pkg: "taskfile/ast", Func: "ZZ_C09_Merge", Tag: "siblings", POR: true, Replay: "native", Twin: true, Params: map[string]int{"diamond": 0, "__maporder": 1, "__coarse": 1}},
 	{Prop: "C09", Pkg: "taskfile/ast", Func: "ZZ_C09_Merge", Tag: "diamond", POR: true, Replay: "native", Params: map[string]int{"diamond": 1, "__maporder": 1, "__maporder_scope": 1, "__coarse": 1}},
 	{Prop: "C09", Pkg: "taskfile/ast", Func: "ZZ_C09_Merge", Tag: "deep-diamond", POR: true, Replay: "native", Params: map[string]int{"diamond": 1, "deep": 1, "__maporder": 1, "__maporder_scope": 1, "__coarse": 1}},
 	{Prop: "C09", Func: "ZZ_C09_WhenChangedKey", Replay: "native", Twin: true, Params: map[string]int{"__maporder": 1, "__maporder_scope": 1}},
-	{Prop: "C06", Func: "ZZ_C06_DynamicBinding", Replay: "native", Twin: true},
-	{Prop: "C11", Func: "ZZ_C06_DynamicBinding", Replay: "native"},
+	{Prop: "C06", Func: "ZZ_C06_DynamicBinding", Replay: "native", Twin: true, Params: map[string]int{"__tmplsrc": 1}},
+	{Prop: "C11", Func: "ZZ_C06_DynamicBinding", Replay: "native", Params: map[string]int{"__tmplsrc": 1}},
 	{Prop: "C06", Func: "ZZ_C09_WhenChangedKey", Replay: "native", Params: map[string]int{"__maporder": 1, "__maporder_scope": 1}},
 	{Prop: "C09", Func: "ZZ_C09_Dotenv", Replay: "native", Twin: true, Params: map[string]int{"__maporder": 1, "__maporder_scope": 1}},
 	{Prop: "C08", Pkg: "taskfile", Func: "ZZ_C08_Reader", POR: true, Replay: "native", Twin: true, Params: map[string]int{"__coarse": 1}},
@@ -83,8 +87,8 @@ var allSpecs = []HarnessSpec{
 	{Prop: "C08", Pkg: "taskfile", Func: "ZZ_C09_NodeResolve", Replay: "native"},
 	{Prop: "C20", Pkg: "taskfile", Func: "ZZ_C20_NodeOnlineOffline", Replay: "native", Twin: true},
 	{Prop: "C09", Pkg: "taskfile", Func: "ZZ_C09_Reader", POR: true, Replay: "native", Twin: true, Params: map[string]int{"__coarse": 1}},
-	{Prop: "C10", Pkg: "", Func: "ZZ_C10_Vars", Replay: "native", Twin: true},
-	{Prop: "C10", Pkg: "", Func: "ZZ_C10_Env", Replay: "native", Twin: true},
+	{Prop: "C10", Pkg: "", Func: "ZZ_C10_Vars", Replay: "native", Twin: true, Params: map[string]int{"__tmplsrc": 1}},
+	{Prop: "C10", Pkg: "", Func: "ZZ_C10_Env", Replay: "native", Twin: true, Params: map[string]int{"__tmplsrc": 1}},
 	{Prop: "C15", Pkg: "", Func: "ZZ_C15_Resolve", Replay: "native", Twin: true, Params: map[string]int{"tasks": 2, "namelen": 3, "reqlen": 3}, TParams: map[string]int{"tasks": 2, "namelen": 3, "reqlen": 4}},
 	{Prop: "C15", Pkg: "", Func: "ZZ_C15_MatchVerbatim", Replay: "native", Twin: true, Params: map[string]int{"__tmplsym": 1}},
 	{Prop: "C15", Pkg: "", Func: "ZZ_C15_TableOrder", Replay: "native", Twin: true},
@@ -114,6 +118,7 @@ var allSpecs = []HarnessSpec{
 	{Prop: "C19", Pkg: "args", Func: "ZZ_C19_Parse", Replay: "native", Twin: true},
 	{Prop: "C19", Pkg: "args", Func: "ZZ_C19_Dialect", Replay: "native", Twin: true},
 	{Prop: "C19", Pkg: "args", Func: "ZZ_C19_Forward", Replay: "native", Twin: true, Params: map[string]int{"__tmplsym": 1}, TParams: map[string]int{"arglen": 6}},
+	{Prop: "C19", Pkg: "args", Func: "ZZ_C19_Forward", Tag: "templater-from-source", Replay: "native", Params: map[string]int{"__tmplsrc": 1, "novalue_alphabet": 1, "arglen": 10}},
 	{Prop: "C19", Pkg: "cmd/task", Func: "ZZ_C19_CLI", Replay: "native", ReplayPkg: "args", ReplayFunc: "ZZ_C19_CLI_native", Twin: true, Params: map[string]int{"__tmplsym": 1}, TParams: map[string]int{"arglen": 6}},
 	{Prop: "C19", Pkg: "cmd/task", Func: "ZZ_C19_Init", Replay: "native", ReplayPkg: "args", ReplayFunc: "ZZ_C19_Init_native", Twin: true},
 }
